@@ -69,7 +69,7 @@ package dials
 //@ chantype "dials.watchStatusUpdate" (v)
 //@   inv C08_known_type: isType(v, "*dials.valueUpdate") || isType(v, "*dials.watcherDone") || isType(v, "*dials.watchErrorReport")
 //@   inv C08_payload_nonnil: pay(v) != nil
-//@   inv C07_reply_cap1: isType(v, "*dials.valueUpdate") && as(pay(v), "*valueUpdate").installed != nil ==>
+//@   inv C07_C08_reply_cap1: isType(v, "*dials.valueUpdate") && as(pay(v), "*valueUpdate").installed != nil ==>
 //@        chanOpen(as(pay(v), "*valueUpdate").installed) && chcap[as(pay(v), "*valueUpdate").installed] >= 1
 //@        && sent[as(pay(v), "*valueUpdate").installed] == 0
 
@@ -232,7 +232,7 @@ package dials
 //@   requires C01_all_layers_fit: layerFits(watchTab.value, elem(typeOfDyn(tid("*T"))))
 //@        && (forall k int :: 0 <= k && k < len(sourceValues) ==> layerFits(sourceValues[k].value, elem(typeOfDyn(tid("*T")))))
 //@   requires rely_no_serial_overflow: stored(d).serial < MaxUint64
-//@   requires C07_reply_cap1: watchTab.installed != nil ==> chanOpen(watchTab.installed) && chcap[watchTab.installed] >= 1 && sent[watchTab.installed] == 0
+//@   requires C07_C08_reply_cap1: watchTab.installed != nil ==> chanOpen(watchTab.installed) && chcap[watchTab.installed] >= 1 && sent[watchTab.installed] == 0
 //@   requires C08_cbch_open: d.cbch != nil ==> !closed[d.cbch]
 //@   requires C08_updates_open: d.updatesChan != nil ==> !closed[d.updatesChan]
 //@   requires watchTab.installed != d.cbch && watchTab.installed != d.updatesChan && d.cbch != d.updatesChan
